@@ -64,6 +64,10 @@ CHECKS = {
  'C15': ('fault_enumeration', 'runtime monitor: fault injection at every point (output stream raising EPIPE at write k, user writer returning False at write k, invalid byte at every offset, every error outcome of query_csv / query_sqlite_to_csv) with online trace automata (writer protocol, no stream write / input read after the fault), prefix oracle on delivered bytes, descriptor tracking (open() of the front-end modules wrapped, /proc/self/fd, ResourceWarning)',
          'Every write index of 15 query shapes is made to fail, every byte offset of a UTF-8 file is corrupted, and every outcome class of the file front-ends is driven while all opened file objects are tracked; held on the fault points enumerated.',
          'Trusted: the injected sinks model a consumer that went away (EPIPE on every write from k on). "Promptly" = no further stream write after a failed data write, at most one further input read.', 'DESIGN.md#c15'),
+
+ 'C08': ('exploration', 'runtime monitor: metamorphic oracle (every respelling of one structured query must give the identical observation) + reference-model oracle for the canonical spelling and for literal opacity; known literal-token finding classified by mechanism (re-run with the token neutralised)',
+         'Thousands of structured queries are rendered in random compositions of the spelling transformations, with literals drawn from every keyword and metacharacter, and all spellings are executed on the real engine and compared exactly; held on the spellings observed.',
+         'Trusted: rv/model/qast.py respell() only applies transformations the statement lists; rv/model/refsem.py.', 'DESIGN.md#c08'),
 }
 
 NOT_YET = 'check not registered yet (machinery under construction; see DESIGN.md section 3a build order)'
